@@ -93,7 +93,7 @@ func parseRaces(stderr string) []raceReport {
 }
 
 func raceMain(verif, prop, tier string, seed uint64, cfg propCfg, tc tierCfg, replay string) int {
-	bin := filepath.Join(verif, ".build", "sim.race.test")
+	bin := filepath.Join(filepath.Dir(os.Args[0]), "sim.race.test")
 	if _, err := os.Stat(bin); err != nil {
 		fmt.Fprintln(os.Stderr, "race binary missing:", err)
 		return 2
@@ -211,7 +211,7 @@ func raceMain(verif, prop, tier string, seed uint64, cfg propCfg, tc tierCfg, re
 	sort.Strings(sigs)
 	exit, nviol := 0, 0
 	hits := map[string]int{}
-	os.MkdirAll(filepath.Join(verif, "replays", prop), 0o755)
+	os.MkdirAll(filepath.Join(outRoot, "replays", prop), 0o755)
 	for _, s := range sigs {
 		rs := bySig[s]
 		isKnown := false
@@ -225,7 +225,7 @@ func raceMain(verif, prop, tier string, seed uint64, cfg propCfg, tc tierCfg, re
 			continue
 		}
 		nviol++
-		path := filepath.Join(verif, "replays", prop, fmt.Sprintf("%s-seed%d-run%d-%s.json", prop, seed, rs[0].Run, sanitize(s)))
+		path := filepath.Join(outRoot, "replays", prop, fmt.Sprintf("%s-seed%d-run%d-%s.json", prop, seed, rs[0].Run, sanitize(s)))
 		if len(path) > 200 {
 			path = path[:190] + ".json"
 		}
@@ -282,8 +282,8 @@ func raceMain(verif, prop, tier string, seed uint64, cfg propCfg, tc tierCfg, re
 	}
 	ev := map[string]interface{}{"property_id": prop, "tier": tier, "seed": seed, "level": cfg.Level, "coverage": cov, "assumptions": cfg.Assume, "wall_s": wall, "violations": nviol}
 	b, _ := json.MarshalIndent(ev, "", " ")
-	os.MkdirAll(filepath.Join(verif, "evidence"), 0o755)
-	os.WriteFile(filepath.Join(verif, "evidence", prop+".json"), b, 0o644)
+	os.MkdirAll(filepath.Join(outRoot, "evidence"), 0o755)
+	os.WriteFile(filepath.Join(outRoot, "evidence", prop+".json"), b, 0o644)
 	fmt.Printf("%s %s: %d free-running workloads, %d client operations, %d race reports (%d signatures), %.1fs wall, %d violation(s)\n", prop, tier, runs, ops, len(reports), len(sigs), wall, nviol)
 	return exit
 }
